@@ -645,10 +645,25 @@ func (cmd *Command) printDiagnostics(cs []*lint.Analyzer, diagnostics []diagnost
 			if di.Message != dj.Message {
 				return di.Message < dj.Message
 			}
-			if di.BuildName != dj.BuildName {
-				return di.BuildName < dj.BuildName
+			// The remaining descriptor fields have to be ordered before
+			// the build name, so that diagnostics that only differ in
+			// their build name end up adjacent for the de-duplication
+			// below.
+			if ei, ej := di.End, dj.End; ei != ej {
+				if ei.Filename != ej.Filename {
+					return ei.Filename < ej.Filename
+				}
+				if ei.Line != ej.Line {
+					return ei.Line < ej.Line
+				}
+				if ei.Column != ej.Column {
+					return ei.Column < ej.Column
+				}
 			}
-			return di.Category < dj.Category
+			if di.Category != dj.Category {
+				return di.Category < dj.Category
+			}
+			return di.BuildName < dj.BuildName
 		})
 
 		filtered := []diagnostic{
